@@ -846,6 +846,11 @@ func (g *gen) headers(n int) {
 			pv = flip(pv, r.Intn(8*len(pv)))
 		}
 		g.do(fmt.Sprintf("vbv %d %s %s %s %d %d %d %d %d", thr, hx.Hex(pk), hx.Hex(pv), hx.Hex(m), h, wm, t, tq, ptq))
+		if r.Chance(1, 3) { // same key and prove value again, for ANOTHER message and for the same one
+			g.do(fmt.Sprintf("vbv %d %s %s %s %d %d %d %d %d", thr, hx.Hex(pk), hx.Hex(pv), hx.Hex(flip(m, r.Intn(256))), h, wm, t, tq, ptq))
+			g.do(fmt.Sprintf("vbt %d %s %s %s %d %d %d %d %d %d", thr, hx.Hex(pk), hx.Hex(pv), hx.Hex(m), 2000000000, h, wm, t, tq, ptq))
+			g.do(fmt.Sprintf("vbv %d %s %s %s %d %d %d %d %d", thr, hx.Hex(pk), hx.Hex(pv), hx.Hex(m), h, wm, t, tq, ptq))
+		}
 	}
 }
 
